@@ -130,8 +130,13 @@ fn ptype(s: &str) -> ValueType {
 
 /// type + bit pattern of the payload; `nanc`: every NaN prints as `nan`
 fn show_value(v: Value, nanc: bool) -> String {
+    show_value_m(v, nanc, !0u64)
+}
+
+/// as show_value, with generic payloads reduced by `gmask` (the canonical representative)
+fn show_value_m(v: Value, nanc: bool, gmask: u64) -> String {
     match v {
-        Value::Generic(x) => format!("g:{}", x),
+        Value::Generic(x) => format!("g:{}", x & gmask),
         Value::I8(x) => format!("i8:{}", x as u8),
         Value::U8(x) => format!("u8:{}", x),
         Value::I16(x) => format!("i16:{}", x as u16),
@@ -176,19 +181,19 @@ fn pvalue(s: &str) -> Value {
     }
 }
 
-fn show_loc(l: &Location<R>) -> String {
+fn show_loc(l: &Location<R>, gmask: u64) -> String {
     match *l {
         Location::Empty => "E".into(),
         Location::Register { register } => format!("R:{}", register.0),
         Location::Address { address } => format!("A:{}", address),
-        Location::Value { value } => format!("V:{}", show_value(value, true)),
+        Location::Value { value } => format!("V:{}", show_value_m(value, true, gmask)),
         Location::Bytes { value } => format!("B:{}", tohex(value.slice())),
         Location::ImplicitPointer { value, byte_offset } => format!("IP:{}:{}", value.0, byte_offset),
     }
 }
 
-fn show_piece(p: &Piece<R>) -> String {
-    format!("[{},{},{}]", opt(p.size_in_bits), opt(p.bit_offset), show_loc(&p.location))
+fn show_piece(p: &Piece<R>, gmask: u64) -> String {
+    format!("[{},{},{}]", opt(p.size_in_bits), opt(p.bit_offset), show_loc(&p.location, gmask))
 }
 
 fn show_req(r: &EvaluationResult<R>) -> String {
@@ -249,6 +254,7 @@ fn drive<'a, S: EvaluationStorage<R<'a>>>(
     obj: Option<u64>,
     answers: &'a [Answer],
     e: RunTimeEndian,
+    gmask: u64,
 ) -> String {
     if let Some(m) = maxit {
         ev.set_max_iterations(m);
@@ -268,9 +274,9 @@ fn drive<'a, S: EvaluationStorage<R<'a>>>(
             Ok(r) => r,
         };
         if r == EvaluationResult::Complete {
-            let ps: Vec<String> = ev.as_result().iter().map(show_piece).collect();
+            let ps: Vec<String> = ev.as_result().iter().map(|p| show_piece(p, gmask)).collect();
             let vr = match ev.value_result() {
-                Some(v) => show_value(v, true),
+                Some(v) => show_value_m(v, true, gmask),
                 None => "-".into(),
             };
             return format!(
@@ -307,9 +313,65 @@ fn drive<'a, S: EvaluationStorage<R<'a>>>(
 }
 
 fn value_result(r: gimli::Result<Value>, nanc: bool) -> String {
+    value_result_m(r, nanc, !0u64)
+}
+
+fn value_result_m(r: gimli::Result<Value>, nanc: bool, gmask: u64) -> String {
     match r {
-        Ok(v) => format!("ok {}", show_value(v, nanc)),
+        Ok(v) => format!("ok {}", show_value_m(v, nanc, gmask)),
         Err(e) => err(&e),
+    }
+}
+
+fn eval_case(t: &[&str], gmask_from_size: bool) -> String {
+    let (enc, e) = encoding(&t[0..4]);
+    let maxit: Option<u32> = if t[4] == "-" { None } else { Some(t[4].parse().unwrap()) };
+    let init = if t[5] == "-" { None } else { Some(u(t[5])) };
+    let obj = if t[6] == "-" { None } else { Some(u(t[6])) };
+    let small = t[7] == "s";
+    let prog = hex(t[8]);
+    let answers: Vec<Answer> = t[9..].iter().map(|s| panswer(s)).collect();
+    let bytecode = EndianSlice::new(&prog[..], e);
+    let gmask = if gmask_from_size && enc.address_size < 8 { (1u64 << (8 * enc.address_size as u32)) - 1 } else { !0u64 };
+    if small {
+        let ev: Evaluation<R, Small> = Evaluation::new_in(bytecode, enc);
+        drive(ev, maxit, init, obj, &answers, e, gmask)
+    } else {
+        let ev = Evaluation::new(bytecode, enc);
+        drive(ev, maxit, init, obj, &answers, e, gmask)
+    }
+}
+
+/// one Value operation, result printed with generic payloads reduced by gmask
+fn value_op(name: &str, mask: u64, a: Value, b: &str, gmask: u64) -> String {
+    match name {
+        "abs" => return value_result_m(a.abs(mask), false, gmask),
+        "neg" => return value_result_m(a.neg(mask), false, gmask),
+        "not" => return value_result_m(a.not(mask), false, gmask),
+        "convert" => return value_result_m(a.convert(ptype(b), mask), true, gmask),
+        "reinterpret" => return value_result_m(a.reinterpret(ptype(b), mask), false, gmask),
+        _ => {}
+    }
+    let c = pvalue(b);
+    match name {
+        "add" => value_result_m(a.add(c, mask), true, gmask),
+        "sub" => value_result_m(a.sub(c, mask), true, gmask),
+        "mul" => value_result_m(a.mul(c, mask), true, gmask),
+        "div" => value_result_m(a.div(c, mask), true, gmask),
+        "rem" => value_result_m(a.rem(c, mask), false, gmask),
+        "and" => value_result_m(a.and(c, mask), false, gmask),
+        "or" => value_result_m(a.or(c, mask), false, gmask),
+        "xor" => value_result_m(a.xor(c, mask), false, gmask),
+        "shl" => value_result_m(a.shl(c, mask), false, gmask),
+        "shr" => value_result_m(a.shr(c, mask), false, gmask),
+        "shra" => value_result_m(a.shra(c, mask), false, gmask),
+        "eq" => value_result_m(a.eq(c, mask), false, gmask),
+        "ge" => value_result_m(a.ge(c, mask), false, gmask),
+        "gt" => value_result_m(a.gt(c, mask), false, gmask),
+        "le" => value_result_m(a.le(c, mask), false, gmask),
+        "lt" => value_result_m(a.lt(c, mask), false, gmask),
+        "ne" => value_result_m(a.ne(c, mask), false, gmask),
+        _ => "bad-case".into(),
     }
 }
 
@@ -387,44 +449,17 @@ pub fn run(t: &[&str]) -> String {
                 }
                 _ => {}
             }
-            let c = pvalue(t[4]);
-            match name {
-                "add" => value_result(a.add(c, mask), true),
-                "sub" => value_result(a.sub(c, mask), true),
-                "mul" => value_result(a.mul(c, mask), true),
-                "div" => value_result(a.div(c, mask), true),
-                "rem" => value_result(a.rem(c, mask), false),
-                "and" => value_result(a.and(c, mask), false),
-                "or" => value_result(a.or(c, mask), false),
-                "xor" => value_result(a.xor(c, mask), false),
-                "shl" => value_result(a.shl(c, mask), false),
-                "shr" => value_result(a.shr(c, mask), false),
-                "shra" => value_result(a.shra(c, mask), false),
-                "eq" => value_result(a.eq(c, mask), false),
-                "ge" => value_result(a.ge(c, mask), false),
-                "gt" => value_result(a.gt(c, mask), false),
-                "le" => value_result(a.le(c, mask), false),
-                "lt" => value_result(a.lt(c, mask), false),
-                "ne" => value_result(a.ne(c, mask), false),
-                _ => "bad-case".into(),
-            }
+            value_op(name, mask, a, t[4], !0u64)
         }
-        "c07.eval" => {
-            let (enc, e) = encoding(&t[1..5]);
-            let maxit: Option<u32> = if t[5] == "-" { None } else { Some(t[5].parse().unwrap()) };
-            let init = if t[6] == "-" { None } else { Some(u(t[6])) };
-            let obj = if t[7] == "-" { None } else { Some(u(t[7])) };
-            let small = t[8] == "s";
-            let prog = hex(t[9]);
-            let answers: Vec<Answer> = t[10..].iter().map(|s| panswer(s)).collect();
-            let bytecode = EndianSlice::new(&prog[..], e);
-            if small {
-                let ev: Evaluation<R, Small> = Evaluation::new_in(bytecode, enc);
-                drive(ev, maxit, init, obj, &answers, e)
-            } else {
-                let ev = Evaluation::new(bytecode, enc);
-                drive(ev, maxit, init, obj, &answers, e)
+        "c07.eval" => eval_case(&t[1..], false),
+        "c07.spec" => {
+            // t[1] = v|e, t[2] = class tag (k = known finding class), rest as c07.value / c07.eval
+            if t[1] == "e" {
+                return eval_case(&t[3..], true);
             }
+            let sz: u32 = t[4].parse().unwrap();
+            let mask = if sz >= 8 { !0u64 } else { (1u64 << (8 * sz)) - 1 };
+            value_op(t[3], mask, pvalue(t[5]), t[6], mask)
         }
         _ => format!("unknown-stream {}", t[0]),
     }
